@@ -2,7 +2,7 @@
 
 PROPS = {
     'C15': dict(
-        verus=['tile_bbox'],
+        verus=['tile_bbox', 'pyramid_real'],
         kani=['pyramid', 'tile_bbox', 'geo', 'tile_bbox_iter'],
         not_decided=[
             'y-axis geographic round trip through libm tan/ln/exp/atan (numerical error analysis out of reach)',
@@ -26,7 +26,7 @@ PROPS = {
         ],
     ),
     'C06': dict(
-        verus=['converter', 'tile_bbox', 'convert_cli'],
+        verus=['converter', 'tile_bbox', 'convert_cli', 'pyramid_real'],
         kani=['pyramid', 'geo'],
         not_decided=[
             'CLI string parsing of --bbox / zoom options (iterator chain, havoc under R9 where extracted)',
@@ -35,7 +35,7 @@ PROPS = {
         ],
     ),
     'C08': dict(
-        verus=['overlay', 'compression'],
+        verus=['overlay', 'compression', 'pyramid_real'],
         kani=['pyramid', 'tile_converter', 'tile_bbox_iter'],
         not_decided=[
             'get_tile_stream of the overlay outside the per-cell closure: iter_bbox_grid(32) split (grid law bounded in tile_bbox_iter) and from_stream_iter concatenation; recompress failing inside the stream (assumption A-overlay-1: the real code panics there)',
@@ -43,7 +43,7 @@ PROPS = {
         ],
     ),
     'C09': dict(
-        verus=['filters', 'tile_bbox'],
+        verus=['filters', 'tile_bbox', 'pyramid_real'],
         kani=['pyramid', 'geo'],
         not_decided=[
             'Args::from_vpl_node (derive-generated argument parsing; C18 territory)',
@@ -51,7 +51,7 @@ PROPS = {
     ),
     'C02': dict(
         verus=['converter', 'filters', 'overlay'],
-        kani=[],
+        kani=['tile_bbox_iter'],
         not_decided=[
             'container readers (the base case): chunk merging, SQL range query, default lookup loop live in async stream code',
             'overlay: the split of a request into iter_bbox_grid(32) cells and the concatenation of the cell streams (the per-cell stream is under contract); merge stream paths',
@@ -59,7 +59,7 @@ PROPS = {
         ],
     ),
     'C03': dict(
-        verus=['tile_bbox', 'filters', 'overlay', 'converter', 'pmtiles_reader', 'versatiles_reader'],
+        verus=['tile_bbox', 'filters', 'overlay', 'converter', 'pmtiles_reader', 'versatiles_reader', 'pyramid_real'],
         kani=['pyramid'],
         not_decided=[
             'MBTiles MIN/MAX SQL estimate-then-refine', 'tar/directory file-name parsing that feeds include_coord',
